@@ -132,8 +132,10 @@ var c17Table = map[string]string{
 
 // govPayloads returns, for every governance-only type, a well-formed payload with the authority
 // field left empty (filled per case).
-func govPayloads(w *World) map[string]sdk.Msg {
-	ctx := w.RCtx()
+func govPayloads(w *World) map[string]sdk.Msg { return govPayloadsAt(w, w.RCtx()) }
+
+// govPayloadsAt builds the payloads from the state visible through ctx (current params as the base).
+func govPayloadsAt(w *World, ctx sdk.Context) map[string]sdk.Msg {
 	app := w.App
 	t1 := w.A("t1").Addr.String()
 	ammP := app.AmmKeeper.GetParams(ctx)
